@@ -63,7 +63,7 @@ class ApplyHistory(Machine):
                        "memo_same_array_after_refill", "same_shape_different_values",
                        "batch_middle_fails", "batch_gt_n", "batch_not_dividing", "exception_then_success",
                        "mask_checked", "apply_shape", "constrain_batched", "set_target_between_applies",
-                       "out_of_domain_mix", "apply_on_copy", "integer_dtype_buffer", "non_contiguous_view_input")
+                       "out_of_domain_mix", "apply_on_copy", "integer_dtype_buffer", "non_contiguous_view_input", "pseudoinverse_of_used_transform")
 
     @classmethod
     def swarm(cls, rng, tier):
@@ -92,8 +92,10 @@ class ApplyHistory(Machine):
             return {"op": "refill", "b": rng.randrange(64), "seed": rng.getrandbits(32), "mix": rng.choice([0, 0, 1, 2])}
         if r < 0.90:
             return {"op": "set_target", "t": rng.randrange(64), "seed": rng.getrandbits(32)}
-        if r < 0.95:
+        if r < 0.93:
             return {"op": "copy", "t": rng.randrange(64), "dst": rng.randrange(64)}
+        if r < 0.96:
+            return {"op": "pinv", "t": rng.randrange(64), "dst": rng.randrange(64)}
         return {"op": "constrain", "seed": rng.getrandbits(32), "batch": rng.randrange(1, 60)}
 
     # ------------------------------------------------------------------
@@ -113,6 +115,9 @@ class ApplyHistory(Machine):
         return self.S * g.uniform(0.8, 1.3) + g.uniform(-1.5, 1.5, size=self.S.shape) * 0.6 + g.uniform(-3, 3, size=2)
 
     def _build(self, recipe):
+        if len(recipe) == 4:
+            # ("inverse of", kind, seed, tseed): a fresh transform, inverted before it was ever applied
+            return self._build(recipe[1:]).pseudoinverse()
         kind, seed, tseed = recipe
         S = PointCloud(self.S.copy())
         if kind in ("PiecewiseAffine", "PythonPWA"):
@@ -268,12 +273,32 @@ class ApplyHistory(Machine):
         if not self.ts:
             return
         e = self.ts[op["t"] % len(self.ts)]
-        if e["kind"] not in ("PiecewiseAffine", "PythonPWA", "ThinPlateSplines", "AlignmentSimilarity"):
+        if e["kind"] not in ("PiecewiseAffine", "PythonPWA", "ThinPlateSplines", "AlignmentSimilarity") or len(e["recipe"]) == 4:
             return
         kind, seed, _ = e["recipe"]
         e["recipe"] = (kind, seed, op["seed"])
         e["t"].set_target(PointCloud(self._target(op["seed"])))
         e["retargeted"] = True
+
+    def _op_pinv(self, op):
+        """The pseudoinverse of a long-lived (already applied) transform joins the pool; it must behave like the
+        pseudoinverse of a fresh transform."""
+        if not self.ts:
+            return
+        e = self.ts[op["t"] % len(self.ts)]
+        if len(e["recipe"]) == 4 or not hasattr(e["t"], "pseudoinverse") or e["kind"].startswith("Chain") or e["kind"] in ("WithDims", "R2LogR2RBF", "R2LogRRBF"):
+            return
+        try:
+            inv = e["t"].pseudoinverse()
+        except Exception:
+            return   # C04's business
+        n = {"t": inv, "kind": e["kind"], "recipe": ("inv",) + tuple(e["recipe"]), "memo": "empty", "last": None,
+             "raised": False, "copy": False, "inverse": True}
+        self.ctx.probe("pseudoinverse_of_used_transform")
+        if len(self.ts) < POOL_T:
+            self.ts.append(n)
+        else:
+            self.ts[op["dst"] % POOL_T] = n
 
     def _op_copy(self, op):
         if not self.ts:
@@ -383,7 +408,7 @@ class ApplyHistory(Machine):
         if got_exc is not None:
             if e["raised"] is False:
                 e["raised"] = True
-            if kind in PWA_OWNERS:
+            if kind in PWA_OWNERS and len(e["recipe"]) == 3:
                 mask = np.asarray(got_exc.points_outside_source_domain)
                 ref = self._reference_mask(e["recipe"], snapshot)
                 ctx.probe("mask_checked")
